@@ -23,9 +23,10 @@ func (r *MacroRule) RunPass(ctx *Context, pass Pass) {
 	r.Expr.RunPass(ctx, pass)
 
 	// A macro that no token or fragment uses is never expanded, so NFACons would
-	// not notice that it is part of a reference cycle. References were resolved
-	// by the Check pass.
-	if pass == Normalize && r.inCycle() {
+	// not notice that it is part of a reference cycle. The references of the
+	// macros declared so far have been resolved at this point: the last declared
+	// macro of a cycle finds it.
+	if pass == Check && r.inCycle() {
 		ctx.Errs.Errorf(ctx.Position(r), "macro cycle detected")
 	}
 }
